@@ -15,7 +15,7 @@ RULE = (
     "BOTH an acceptance and a rejection were observed and alpha was recomputed from scratch"
 )
 REQUIRED = {"decisions": 3000, "alpha_recomputed": 2000, "accepted": 300, "rejected": 300, "sample_calls": 500,
-            "cells_gibbs": 3, "cells_fastgibbs": 3, "cells_metropolis-hastings": 3, "cells_ind": 3, "alpha_plus_inf_decisions": 5, "alpha_recomputed_mixture": 50}
+            "cells_gibbs": 3, "cells_fastgibbs": 3, "cells_metropolis-hastings": 3, "cells_ind": 3, "alpha_plus_inf_decisions": 5, "alpha_recomputed_mixture": 50, "sweeps_without_mstep": 10}
 ASSUMPTIONS = [
     "attachment = nodes nll_attach / nll_attach_ind, regularity = each latent variable's own prior node (nll_regul_<v>[_ind]); both re-evaluated from "
     "scratch through the variables' own definitions (the densities themselves are C08's job)",
@@ -104,13 +104,20 @@ def run_shard(spec, ctx):
                 s.std[0] = s.std[0] * 300.0
             hook_sample(SamplerProbe(s), callback)
         temps = [1.0, 0.5, 0.1, 1.0 / 7.0, float(rng.uniform(0.05, 1.0))]
+        no_mstep = (spec["k"] + i) % 4 == 3 or (is_mix and i % 2 == 1)
         n_it = int(rng.integers(3, 11))
         try:
             for it in range(1, n_it + 1):
                 algo.current_iteration = it
                 algo.temperature_inv = temps[it % len(temps)]
                 algo.temperature = 1.0 / algo.temperature_inv
-                algo._iteration(model, state)
+                if no_mstep:
+                    # as the sampling-based personalisations do: sweeps of the individual samplers only, parameters never updated in between
+                    for v in sorted(ind_names):
+                        algo.samplers[v].sample(state, temperature_inv=algo.temperature_inv)
+                    stats["sweeps_without_mstep"] = stats.get("sweeps_without_mstep", 0) + 1
+                else:
+                    algo._iteration(model, state)
                 if dead["v"]:
                     break
         except Exception as e:
